@@ -46,8 +46,26 @@ func RandomUniformBinaryTree(nbtips int, rooted bool) (*Tree, error) {
 			}
 			t.SetRoot(n2)
 		default:
-			// Where to insert the new tip
-			i_edge := rand.Intn(len(edges))
+			// Where to insert the new tip: on any branch or, for a rooted
+			// tree, above the current root (otherwise the first tip could
+			// never be the sister of all the others and rooted topologies
+			// would not be equiprobable)
+			npos := len(edges)
+			if rooted {
+				npos++
+			}
+			i_edge := rand.Intn(npos)
+			if i_edge == len(edges) {
+				newroot := t.NewNode()
+				e1 := t.ConnectNodes(newroot, t.Root())
+				e2 := t.ConnectNodes(newroot, n)
+				e1.SetLength(gostats.Exp(lambda))
+				e2.SetLength(gostats.Exp(lambda))
+				t.SetRoot(newroot)
+				edges = append(edges, e1)
+				edges = append(edges, e2)
+				continue
+			}
 			e := edges[i_edge]
 			newedge, newedge2, _, err := t.GraftTipOnEdge(n, e)
 			e.SetLength(gostats.Exp(lambda))
